@@ -278,7 +278,9 @@ def run_property(prop, tier="quick", seed=0, write_baseline=False, only=None, ve
             "obligations": n_obl,
             "discharged": n_dis,
             "checker_cmd": f"./check {prop} --tier {tier}",
-            "trusted_base": TRUSTED_BASE + meta.get("trusted_base", []),
+            "trusted_base": TRUSTED_BASE + meta.get("trusted_base", []) + (
+                ["Lean 4 kernel + Mathlib (proofs of the spec theory axioms, theory/PintTheory.lean, checked in setup)"]
+                if any(getattr(decl.CONTRACTS[k], "theories", ()) for k in keys) else []),
             "explanation": meta.get("explanation", ""),
             "functions_under_contract": functions,
             "assumed_contracts": assumed,
@@ -314,7 +316,7 @@ def run_property(prop, tier="quick", seed=0, write_baseline=False, only=None, ve
         with open(BASELINE, "w") as f:
             json.dump(b, f, indent=0, sort_keys=True)
     print(f"{prop}: {n_dis}/{n_obl} obligations discharged over {len(functions)} functions/lemmas "
-          f"({len(known_hits)} known findings, {n_viol} violations, {len(undecided)} undecided); "
+          f"({len(known_hits) + sum(len(r.get('known_hits', [])) for r in standin_reports)} known findings, {n_viol} violations, {len(undecided)} undecided); "
           f"stand-ins: {', '.join(r['name'] + '=' + str(r.get('evaluations', 0)) for r in standin_reports) or 'none'}; "
           f"{time.time() - t_start:.1f}s")
     if n_viol:
